@@ -156,7 +156,8 @@ def rand_key(rng, span, names):
     return [rng.choice(['t3', 'ko'])]
 
 
-def rand_op(rng, span, kind, nrows_hint):
+def rand_op(rng, span, kind, nrows_hint, pool=None):
+    VARS = pool if pool is not None else globals()['VARS']
     n = len(span)
     r = rng.random()
     vc = kind == 'vc'
@@ -195,7 +196,7 @@ def rand_op(rng, span, kind, nrows_hint):
         return ['setitem', k, v]
     if r < 0.9:
         m = rng.randint(0, 3)
-        nms = rng.sample(VARS + ['Q'], m)
+        nms = rng.sample(VARS + ['Q'], min(m, len(VARS) + 1))
         return ['replace', [[x, rand_operand(rng, n)] for x in nms]]
     return ['addattr', rng.choice(ATTRS + VARS[:2]), S(rng.choice(SCALARS))]
 
@@ -437,6 +438,8 @@ def oracle(case, obs):
             if m is not None and k is not None and m != k and m != 1:
                 bad('slice|wrong-length-accepted', 'op %d: %d values were accepted for a label slice of %d periods' % (i, m, k))
         # ---- (4) strict
+        if prev['strict'] and op[0] == 'setattr' and op[1] == 'strict' and out == 'AttributeError':
+            bad('strict|toggle-blocked', 'op %d: strict=True and obj.strict = v raised AttributeError' % i)
         if prev['strict'] and op[0] == 'setattr' and op[1] == 'values' and out == 'AttributeError':
             # `values` replacement is one of the public operations and `values` an existing name of the class: it must keep working
             bad('strict|values-setter-blocked', 'op %d: strict=True and obj.values = v raised AttributeError (%s)' % (i, stp.get('msg', '')[:60]))
